@@ -179,6 +179,19 @@ static void print_outputs(void)
 		puthex(ip, iplen);
 		printf(":%d=", port);
 		putsum(cap[i].data, cap[i].len);
+		/* what the real client decoder extracts from this datagram, when it is a DNS answer */
+		if (cap[i].len >= 12 && (cap[i].data[2] & 0x80) && memcmp(cap[i].data, raw_header, 3)) {
+			static char dec[65536 + 16];
+			struct query dq;
+			int rv;
+			memset(&dq, 0, sizeof(dq));
+			inj_set(cap[i].data, cap[i].len);
+			inj_residue = 0;
+			rv = cli_read_dns_withq(dec, 65536, &dq);
+			printf("{%d:", rv);
+			putsum((unsigned char *)dec, rv > 0 ? rv : 0);
+			printf("}");
+		}
 	}
 	printf(" T%d", tun_written_count);
 	for (i = 0; i < tun_written_count; i++) {
@@ -253,6 +266,7 @@ int handle_line(char *l)
 		srv_set_ns_ip(NULL);
 	bindport = atoi(tok(&p));
 	srv_set_bind_port(bindport);
+	cli_init("x.y", 0, 0, 255, 10, 'T', 0, 1);
 	cli_set_edns0(1);
 
 	for (ev = strtok_r(p, ";", &save); ev; ev = strtok_r(NULL, ";", &save)) {
